@@ -495,15 +495,20 @@ def _base_alphabet(n):
     return al
 
 
-def _exhaustive_runs(max_len_by_n):
+def _exhaustive_runs(max_len_by_n, spec_every=1):
+    """`spec`: the case also asks the driver for the specification-side definitions (closed forms per branch...)
+    and records the interleaved per-branch trace of the real run; the replies are big, so the thorough tier
+    does it for every `spec_every`-th case"""
+    cnt = 0
     for n, m in sorted(max_len_by_n.items()):
         al = _base_alphabet(n)
         flow = list(range(1, n + 1))
         for l in range(0, m + 1):
             for brs in itertools.product(al, repeat=l):
                 for cb in (True, False):
+                    cnt += 1
                     yield {"op": "run", "brs": [dict(b) for b in brs], "flow": flow,
-                           "bufsizes": _bufsizes(n), "copy_buf": cb}
+                           "bufsizes": _bufsizes(n), "copy_buf": cb, "spec": cnt % spec_every == 0}
 
 
 _TUPLE_FORMS = ["tuple", "tuple_pre", "tuple_post", "tuple_pp"]
@@ -553,14 +558,14 @@ def _rand_nest(rng, n):
     return {"k": "nest", "inner": inner, "bufsize": rng.choice([1, 2, 1000, None])}
 
 
-def _rand_run(rng, maxbr, maxn):
+def _rand_run(rng, maxbr, maxn, spec_p=1.0):
     flow = _rand_flow(rng, maxn)
     l = rng.randint(0, maxbr)
     brs = [_rand_spec(rng, len(flow)) for _ in range(l)]
     if brs and rng.random() < 0.25:
         brs[rng.randrange(len(brs))] = _rand_nest(rng, len(flow))
     return {"op": "run", "brs": brs, "flow": flow,
-            "bufsizes": _bufsizes(len(flow)), "copy_buf": rng.random() < 0.5}
+            "bufsizes": _bufsizes(len(flow)), "copy_buf": rng.random() < 0.5, "spec": rng.random() < spec_p}
 
 
 BUFARGS = [None, {"int": 1}, {"int": 2}, {"int": 3}, {"int": 1000}, {"int": 0}, {"int": -1}, {"float_int": 2},
@@ -780,20 +785,22 @@ def gen_cases(ctx):
         exh = {0: 3, 1: 3, 2: 3, 3: 2, 4: 2}
         n_run, n_meth, n_zip, n_runx, n_zctx = 900, 500, 400, 900, 400
         maxbr, maxn = 4, 8
+        spec_every, spec_p = 1, 1.0
     else:
         # the property's quantifier for N = 4: every branch list of length 0..4 over the four kinds, every
         # bufsize, both copy_buf, every stop index (lists of length 4 on flows of length 0..3; 0..3 on length 4)
         exh = {0: 4, 1: 4, 2: 4, 3: 4, 4: 3}
         n_run, n_meth, n_zip, n_runx, n_zctx = 30000, 8000, 6000, 20000, 8000
         maxbr, maxn = 5, 8
+        spec_every, spec_p = 8, 0.3
     ctx.exhaustive = False  # the random part is sampled
 
     def sub():
         # independent streams, all derived from ctx.rng
         return random.Random(ctx.rng.getrandbits(64))
     streams = [
-        _exhaustive_runs(exh),
-        _repeat(n_run, _rand_run, sub(), maxbr, maxn),
+        _exhaustive_runs(exh, spec_every),
+        _repeat(n_run, _rand_run, sub(), maxbr, maxn, spec_p),
         _repeat(n_meth, _rand_methods, sub(), 4, 7),
         _repeat(n_zip, _rand_zip, sub(), 4, 7),
         _repeat(n_runx, _rand_runx, sub(), maxbr, 6),
@@ -806,7 +813,7 @@ def gen_cases(ctx):
 # ----------------------------------------------------------------------------------------
 # the real code
 
-def _run_split(specs, flow, bufsize, copy_buf):
+def _run_split(specs, flow, bufsize, copy_buf, spec=False):
     import lena.core
     log = []
     try:
@@ -821,7 +828,10 @@ def _run_split(specs, flow, bufsize, copy_buf):
             log.append((_owner(v), ["out", v]))
     except Exception as e:
         return {"e": exc_name(e), "phase": "run", "out": canon(out), "inv": canon(_inv(log, len(specs)))}
-    return {"out": canon(out), "inv": canon(_inv(log, len(specs))), "ptrace": canon(_ptrace(log, len(specs)))}
+    res = {"out": canon(out), "inv": canon(_inv(log, len(specs)))}
+    if spec:
+        res["ptrace"] = canon(_ptrace(log, len(specs)))
+    return res
 
 
 def _py_bufarg(a):
@@ -1167,7 +1177,8 @@ def _init_impl(case):
 def run_impl(case):
     op = case["op"]
     if op == "run":
-        return {"runs": [_run_split(case["brs"], case["flow"], bs, case["copy_buf"]) for bs in case["bufsizes"]]}
+        return {"runs": [_run_split(case["brs"], case["flow"], bs, case["copy_buf"], bool(case.get("spec")))
+                         for bs in case["bufsizes"]]}
     if op == "methods":
         return _methods_impl(case)
     if op == "runx":
@@ -1199,7 +1210,7 @@ def model_requests(case):
     op = case["op"]
     if op == "run":
         return [{"op": "run", "brs": [_mspec(s) for s in case["brs"]], "flow": case["flow"],
-                 "bufsizes": case["bufsizes"], "copy_buf": case["copy_buf"]}]
+                 "bufsizes": case["bufsizes"], "copy_buf": case["copy_buf"], "spec": bool(case.get("spec"))}]
     if op == "methods":
         return [{"op": "methods", "brs": [_mspec(s) for s in case["brs"]], "blocks": case["blocks"]}]
     if op == "zipctx":
@@ -1256,11 +1267,11 @@ def _cmp_run(specs, r, m, what, flow=None, bufsize=None):
         if "ptrace" not in m or "ptrace" not in r or not _attributable(sp):
             continue
         mine = r["ptrace"][i]
-        for name in ("ptrace", "pspec", "pbranch"):
-            got = _seen_by_element(sp, m[name][i])
-            if got != mine:
-                lean = {"ptrace": "proj (Split.runTrace)", "pspec": "closedForm", "pbranch": "branchTrace"}[name]
-                return f"{what}: what happens to branch {i} ({_show(sp)}): impl {mine} vs Lean `{lean}` {got}"
+        got = _seen_by_element(sp, m["ptrace"][i])
+        if got != mine:
+            return f"{what}: what happens to branch {i} ({_show(sp)}): impl {mine} vs Lean `proj (Split.runTrace)` {got}"
+        if not m["spec_agree"][i]:
+            return f"{what}: branch {i}: Lean `closedForm` / `branchTrace` differ from `proj (Split.runTrace)` = {got}"
         if m["pout"][i] != [ev[1] for ev in mine if ev[0] == "out"]:
             return f"{what}: values yielded for branch {i}: impl {[ev[1] for ev in mine if ev[0] == 'out']} vs Lean `outputsOf` {m['pout'][i]}"
         recv = [x for ev in mine for x in ([ev[1]] if ev[0] == "fill" else ev[1] if ev[0] == "run" else [])]
